@@ -9,13 +9,6 @@
 import Spq.Mach
 namespace Spq
 
-structure Ops (α : Type) where
-  zero : α
-  neg : α → α
-  add : α → α → α
-  sub : α → α → α
-
-def i64Ops : Ops Int := { zero := 0, neg := negS, add := addS, sub := subS }
 
 namespace Coeffs
 variable {α : Type}
